@@ -31,13 +31,21 @@ class Spec:
         self.last = Fr(0)          # time of the last observed activity
         self.halves = 0
         self.batch = []            # AppClock: entries taken out at the current tick, not yet awakened
+        self.flush_at = None
+        self.paused = None         # a task stopped in the middle of its step (atom `!`)
+        self.deferred = []         # calls of the second thread that wait for the lock meanwhile
         self.app_held = False      # the script holds the AppClock thread in its window
         self.app_lenient = False   # ... or did so / a task took time: its relative time-outs start late
         self.expect_err = None
 
     @staticmethod
+    def keeps_pause(w):
+        return w[0] in ('adv', 'dump', 'task', 'resume') or \
+            (w[0] == 'op' and w[1] == 'o' and w[3] in ('s', 'q', 'c', 'T'))
+
+    @staticmethod
     def newclock(rate=None, now=None):
-        return {'pending': {}, 'stopped': False, 'tempo': None if rate is None else (rate, Fr(0), now)}
+        return {'pending': {}, 'nb': {}, 'range': {}, 'stopped': False, 'tempo': None if rate is None else (rate, Fr(0), now)}
 
     # tempo maps
     def s2b(self, k, s):
@@ -48,9 +56,11 @@ class Spec:
         t = self.clock[k]['tempo']
         return b if t is None else (b - t[1]) / t[0] + t[2]
 
-    def insert(self, k, key, task, at):
+    def insert(self, k, key, task, at, not_before=None):
         self.seq += 1
         self.clock[k]['pending'][task] = (key, self.seq, at)
+        self.clock[k]['nb'][task] = not_before
+        self.clock[k]['range'].pop(task, None)
 
     def do_op(self, k, w, logical, now):
         """a clock call; returns exception name or None"""
@@ -87,6 +97,61 @@ class Spec:
             t['dead'] = True
         return ops, res
 
+    def run_beh(self, k, task, key, due, ops, res):
+        """what an awake leaves behind: its calls (up to a `!` stop), then its result"""
+        c = self.clock[k]
+        raised = False
+        for j, a in enumerate(ops):
+            p = a.split(':')
+            if p[0] == '!':
+                self.paused = (k, task, key, due, ops[j + 1:], res)
+                if k == 'a':
+                    self.app_lenient = True
+                return
+            if p[0] == '+':
+                self.now += F(p[1])
+                if k == 'a':
+                    self.app_lenient = True
+                continue
+            if self.do_op(p[0], p[1:], due, self.now) is not None:
+                raised = True
+                t = self.tasks.get(task)
+                if t and t['kind'] == 'R':
+                    t['dead'] = True
+                break
+        if raised or res == 'x':
+            self.expect_err = (k, task)
+        elif res == 'r:inf':
+            pass                      # an infinite delta means "never", as in sched()
+        elif res[0] == 'r':
+            d = F(res[2:])
+            if not c['stopped']:
+                self.insert(k, (self.now + d) if k == 'a' else (key + d), task, self.now)
+
+    def do_resume(self):
+        while self.paused is not None:      # (a step stopped twice goes on through both stops)
+            k, task, key, due, ops, res = self.paused
+            self.paused = None
+            self.run_beh(k, task, key, due, ops, res)
+        self.last = self.now
+        self.flush_at = k           # the waiting calls get the lock when this clock's thread goes to sleep
+
+    def do_deferred(self):
+        self.flush_at = None
+        for k, w, called in self.deferred:
+            # the call was made at `called` from outside any routine: whatever it schedules with a delay
+            # may not be awakened before `called + delay` (seconds clocks)
+            nb = called + F(w[1]) if (w[0] == 'q' and k in ('s', 'a')) else None
+            self.do_op(k, w, self.now, self.now)
+            if w[0] in ('s', 'q') and int(w[2]) in self.clock[k]['pending']:
+                self.clock[k]['nb'][int(w[2])] = nb
+                if w[0] == 'q':
+                    # the property fixes the scheduled time only up to [time of the call, time the lock was
+                    # obtained] + delay; the task itself tells which one it was
+                    lo = (called if k == 'a' else self.s2b(k, called)) + F(w[1])
+                    self.clock[k]['range'][int(w[2])] = (lo, self.clock[k]['pending'][int(w[2])][0])
+        self.deferred = []
+
     def bad(self, i, what, sig):
         return {'what': f'line {i} `{self.lines[i]}`: {what}', 'signature': sig, 'index': i}
 
@@ -98,6 +163,8 @@ class Spec:
             if v:
                 return v
         # completeness: the script ends with a long idle run, nothing finite may still be pending
+        if self.paused is not None or self.deferred:
+            return None           # (a step is still stopped at the end of the script)
         for k, c in self.clock.items():
             if c['stopped'] or (k == 'a' and (self.app_held or self.halves)):
                 continue          # (the script itself still holds the AppClock thread / a sched call)
@@ -113,6 +180,17 @@ class Spec:
     def line(self, i, ln, out):
         w = ln.split()
         out, _, at_end = out.rpartition(' @')
+        if '|' in out.split(';'):
+            # the line first let a stopped step finish (events before the `|` marker), then did its own work
+            parts = out.split(';')
+            j = parts.index('|')
+            v = self.line1(i, ['resume'], ';'.join(parts[:j]) or '-', None)
+            if v:
+                return v
+            return self.line1(i, w, ';'.join(parts[j + 1:]) or '-', at_end)
+        return self.line1(i, w, out, at_end)
+
+    def line1(self, i, w, out, at_end):
         if 'SPIN' in out:
             return self.bad(i, 'a clock thread busy-loops: it keeps returning from wait without awakening the '
                                'task that is due', 'c08:spin')
@@ -121,6 +199,8 @@ class Spec:
         evs = [e for e in out.split(';') if e not in ('-', 'noop', '')]
         if w[0] == 'dump':
             evs = [e for e in evs if e.startswith('T:')]
+        if w[0] == 'resume' and self.paused is not None:
+            self.do_resume()
         run_late = None
         start = self.now
         if w[0] == 'run':
@@ -143,6 +223,8 @@ class Spec:
                     c['pending'].clear()
                     if f'X{k}' not in evs:
                         return self.bad(i, 'stopped clock thread did not exit', 'c08:stop')
+            elif w[1] == 'o' and self.paused is not None and not self.clock[k]['stopped']:
+                self.deferred.append((k, w[3:], self.now))     # waits for the lock of the stopped step
             else:
                 exc = self.do_op(k, w[3:], self.now, self.now)
                 got = [e[2:] for e in evs if e.startswith('R:')]
@@ -182,6 +264,8 @@ class Spec:
             if tag == 'X':
                 if not self.clock[body]['stopped']:
                     return self.bad(i, f'thread of clock {body} exited', 'c08:thread-exit')
+            if tag == 'W' and self.flush_at is not None and body.split(':')[0] == self.flush_at:
+                self.do_deferred()
             if e.startswith('Wa') and self.batch:
                 return self.bad(i, f'AppClock went to sleep with due tasks not awakened: {self.batch}', 'c08:never-awakened:app')
             if tag != 'A':
@@ -216,6 +300,20 @@ class Spec:
                     if (k2, s2) < (key, seq):
                         return self.bad(i, f'task {task} (time {fr(key)}, call #{seq}) awakened on {k} before task {t2} '
                                            f'(time {fr(k2)}, call #{s2})', f'c08:order:{kind}')
+            rng_ = c['range'].pop(task, None)
+            if rng_ is not None:
+                obs = beats if c['tempo'] is not None else secs
+                if not (rng_[0] <= obs <= rng_[1]):
+                    return self.bad(i, f'task {task} on {k} was scheduled with a delay by a call made from outside any routine while a task '
+                                       f'was in the middle of its step; it is awakened for time {fr(obs)}, outside '
+                                       f'[{fr(rng_[0])}, {fr(rng_[1])}] = [time of the call + delay, time the lock was obtained + delay]',
+                                    'c08:early:outside-call')
+                key = obs
+            nb = c['nb'].pop(task, None)
+            if nb is not None and now < nb:
+                return self.bad(i, f'task {task} on {k} awakened at {fr(now)}, before the time of the scheduling call '
+                                   f'plus its delay ({fr(nb)}): the call was made from outside any routine while a '
+                                   'task was in the middle of its step', 'c08:early:outside-call')
             due = self.b2s(k, key)
             if now < due and c['tempo'] is None:
                 return self.bad(i, f'task {task} awakened at {fr(now)} before its time {fr(due)}', f'c08:early:{kind}')
@@ -234,38 +332,19 @@ class Spec:
                                     f'c08:late:{kind}')
             self.now = now
             ops, res = self.next_beh(task)
-            raised = False
-            for a in ops:
-                p = a.split(':')
-                if p[0] == '+':
-                    self.now += F(p[1])
-                    if k == 'a':
-                        self.app_lenient = True
-                    continue
-                if p[1] == 'T':
-                    self.clock[p[0]]['tempo_changed_in_line'] = i
-                if self.do_op(p[0], p[1:], due, self.now) is not None:
-                    raised = True
-                    t = self.tasks.get(task)
-                    if t and t['kind'] == 'R':
-                        t['dead'] = True
-                    break
-            if raised or res == 'x':
-                self.expect_err = (k, task)
-            elif res == 'r:inf':
-                pass                      # an infinite delta means "never", as in sched()
-            elif res[0] == 'r':
-                d = F(res[2:])
-                if not c['stopped']:
-                    self.insert(k, (self.now + d) if k == 'a' else (key + d), task, self.now)
+            self.run_beh(k, task, key, due, ops, res)
             self.last = self.now
         if self.expect_err is not None:
             return self.bad(i, f'raising task {self.expect_err} was not logged', 'c08:error-not-logged')
+        if self.flush_at is not None and self.paused is None:
+            self.do_deferred()
+        if at_end is None:
+            return None
         # time after the command (reported by the harness: wake-ups with lateness move it)
         if F(at_end) < self.now:
             return self.bad(i, 'time went backwards', 'c08:harness')
         self.now = F(at_end)
-        if w[0] == 'run':
+        if w[0] == 'run' and self.paused is None:
             # everything that was due (lateness included) by the end of the run must have run
             for k, c in self.clock.items():
                 if c['stopped'] or (k == 'a' and (self.app_held or self.app_lenient or self.halves)):
@@ -395,7 +474,7 @@ class Check(common.Check):
                 lines.append(G.choice([f'half {fr(G.choice([Fr(0), Fr(1,8), Fr(1,2)]))} {G.randrange(nt)}', 'fin', 'cont a']))
             else:
                 lines.append('dump')
-        lines += ['fin', 'fin', 'fin', 'cont a', f'run {BIG} 0', 'dump']
+        lines += ['fin', 'fin', 'fin', 'cont a', f'run {BIG} 0', 'resume', f'run {BIG} 0', 'resume', f'run {BIG} 0', 'dump']
         return lines
 
     def gen_tempo_batch(self, G):
@@ -416,8 +495,39 @@ class Check(common.Check):
         lines += [f'run 3 0', 'fin', 'cont a', f'run {BIG} 0', 'dump']
         return lines
 
+    def gen_midstep(self, G):
+        """scheduling calls from a second thread while a task is in the middle of a long step"""
+        busy = G.choice(['s', 's', 'a', 't0'])
+        d1, d2 = G.choice([Fr(1, 8), Fr(1, 2), Fr(1)]), G.choice([Fr(0), Fr(1, 8), Fr(1, 2)])
+        lines = [f'task 0 {G.choice("RRF")} +:{fr(d1)} ! +:{fr(d2)} ' + G.choice(['d', 'r:1/4', 'x', 'r:1 | d']),
+                 'task 1 F d', 'task 2 R r:1/8 | d', 'task 3 F d', 'new 0 ' + fr(G.choice([Fr(1), Fr(2)]))]
+        lines.append(f'op m {busy} q {fr(G.choice([Fr(0), Fr(1, 8), Fr(1, 4)]))} 0')
+        if G.random() < 0.5:
+            lines.append(f'op m {G.choice(["s", "a", "t0"])} q {fr(G.choice([Fr(1), Fr(2)]))} 3')   # a far head
+        lines.append(f'run 1/2 {fr(G.choice([Fr(0), Fr(1, 64), Fr(1, 4)]))}')
+        lines.append(f'adv {fr(G.choice([Fr(1, 4), Fr(1, 2), Fr(1)]))}')
+        for t in (1, 2):
+            if G.random() < 0.8:
+                k = G.choice(['s', 's', 'a', 't0'])
+                lines.append(f'op o {k} q {fr(G.choice([Fr(1, 8), Fr(1, 4), Fr(1, 2)]))} {t}')
+                if G.random() < 0.4:
+                    lines.append(f'adv {fr(G.choice([Fr(1, 8), Fr(1, 2)]))}')
+        if G.random() < 0.2:
+            lines.append(f'op o {G.choice(["s", "a", "t0"])} c')
+        if G.random() < 0.3:
+            lines.append(f'op o t0 T {fr(G.choice([Fr(1, 2), Fr(4)]))}')
+            lines.append(f'op m t0 q 1 3')
+        lines.append(G.choice(['resume', 'resume', f'run 1 0', 'wake s p']))
+        lines += [f'run 3 {fr(G.choice([Fr(0), Fr(1, 64)]))}', 'fin', 'cont a', f'run {BIG} 0', 'dump']
+        return lines
+
     def gen(self, rng, n):
-        return [self.gen_tempo_batch(rng) if rng.random() < 0.08 else self.gen_one(rng) for _ in range(n)]
+        out = []
+        for _ in range(n):
+            r = rng.random()
+            out.append(self.gen_tempo_batch(rng) if r < 0.08 else self.gen_midstep(rng) if r < 0.18
+                       else self.gen_one(rng))
+        return out
 
     # ---- real-thread soak (thorough tier): count, order, not early, sched-ahead not lost -------
     def soak_scenarios(self, G, n):
@@ -567,8 +677,12 @@ class Check(common.Check):
             """definitions still referenced by the commands (transitively through behaviours)"""
             text = ' '.join(cmds)
             tasks, clocks = set(), set(re.findall(r'\bt(\d+)\b', text))
-            for m in re.finditer(r'\b(?:s|q) \S+ (\d+)\b|half \S+ (\d+)', text):
-                tasks.add(m.group(1) or m.group(2))
+            for ln in cmds:
+                w = ln.split()
+                if w[0] == 'op' and len(w) >= 6 and w[3] in ('s', 'q'):
+                    tasks.add(w[5])
+                elif w[0] == 'half':
+                    tasks.add(w[2])
             body = {l.split()[1]: l for l in defs if l.startswith('task')}
             todo = list(tasks)
             while todo:
